@@ -252,6 +252,15 @@ where
             return self.interp_array_into_1d(xs_1d, ys_1d, buffer_d);
         }
 
+        // the fast path above relies on `Zip` to check the shape; here we have to do it ourself,
+        // indexing alone would accept a buffer that is too large or has permuted axes
+        let expect = self.get_buffer_shape(xs.raw_dim());
+        if buffer.raw_dim() != expect {
+            let expect = expect.into_pattern();
+            let got = buffer.dim();
+            panic!("buffer has the wrong shape. expected: {expect:?}, got: {got:?}")
+        }
+
         for (index, &x) in xs.indexed_iter() {
             let current_dim = index.clone().into_dimension();
             let y = *ys
